@@ -143,7 +143,8 @@ class Run:
                        "same_program_both_gate_states": 0, "check_after_exceptional_exit": 0,
                        "gated_rejected": 0, "gated_accepted_open": 0,
                        "failed_midway_with_gate_open": 0,
-                       "defined_before_first_check_under_other_gate_state": 0}
+                       "defined_before_first_check_under_other_gate_state": 0,
+                       "op_in_other_thread": 0, "op_in_fresh_context": 0}
         self.depth = 0
         self.crossing = 0
         self.had_exc_exit = False
@@ -249,14 +250,43 @@ class Run:
             self.faults["guppy_error_propagated"] += 1
             raise held["exc"]
 
+    def elsewhere(self, fn) -> None:
+        """Runs a leaf op in another caller thread (started and joined at once: which
+        thread runs is decided here, nothing is concurrent) or in a fresh
+        `contextvars.Context`.  The gate is process-global: where a call or a check comes
+        from must not matter."""
+        import contextvars
+        import threading
+        where = self.ch.draw(8, "elsewhere")
+        if where >= 2:
+            return fn()
+        box: dict = {}
+
+        def target():
+            try:
+                fn()
+            except BaseException as e:  # noqa: BLE001
+                box["exc"] = e
+
+        if where == 0:
+            t = threading.Thread(target=target)
+            t.start()
+            t.join()
+            self.probes["op_in_other_thread"] += 1
+        else:
+            contextvars.Context().run(target)
+            self.probes["op_in_fresh_context"] += 1
+        if "exc" in box:
+            raise box["exc"]
+
     def exec_block(self, ops: list) -> None:
         for op in ops:
             self.steps += 1
             if op[0] == "check":
-                self.do_check(op)
+                self.elsewhere(lambda: self.do_check(op))
             elif op[0] == "call":
-                (self.PUB.enable_experimental_features if op[1]
-                 else self.PUB.disable_experimental_features)()
+                self.elsewhere(self.PUB.enable_experimental_features if op[1]
+                               else self.PUB.disable_experimental_features)
                 self.model = op[1]
                 self.log.add("call", op[1])
                 self.compare_flag("after_call")
